@@ -174,7 +174,7 @@ def run_check(pid, tier, seed, replay=None, nworkers=None, verbose=True):
         e = [x for x in findings if x['id'] == fid][0]
         out_lines.append(f"KNOWN-FINDING: property={pid} {fid}: {e['what']} (seen in {len(rs)} probe case(s))")
     replay_paths = []
-    for r in viol[:20]:
+    for r in viol[:int(os.environ.get("VERIF_MAX_REPLAYS", "25"))]:
         path = os.path.join(WORK, 'replays', pid, f"seed{seed}_{tier}_case{r['idx']}.json")
         with open(path, 'w') as f:
             json.dump({'property': pid, 'seed': seed, 'tier': tier, 'case': r['case'], 'result': {k: v for k, v in r.items() if k != 'case'}},
@@ -234,6 +234,13 @@ def run_check(pid, tier, seed, replay=None, nworkers=None, verbose=True):
     print(f"[{pid}] tier={tier} seed={seed} cases={len(results)} evaluated={n_eval} distinct_nontrivial={len(sigs)} "
           f"ok={counts['ok']} known={counts['known']} violations={counts['violation']} discarded={counts['discard']} "
           f"inconclusive={counts['inconclusive']} wall={wall:.1f}s")
+    hist = {}
+    for r in results:
+        if r['class'] in ('violation', 'inconclusive', 'known'):
+            k = (r['class'], r.get('family'), re.sub(r'[0-9.]+', '#', str(r.get('symptom'))[:110]))
+            hist[k] = hist.get(k, 0) + 1
+    for k, v in sorted(hist.items(), key=lambda kv: -kv[1])[:25]:
+        print(f"   {v:5d} x {k}")
     if verbose:
         print(f"[{pid}] mechanism counters: {json.dumps(mech, sort_keys=True)}")
     if replay:
